@@ -13,7 +13,7 @@ MUT = {
     "arr": "x=(1 2 3)", "assoc": "declare -A m=([k]=v)", "fdef": "newf() { :; }", "fundef": "unset -f g", "sete": "set -e", "setu": "set -u", "pipefail": "set -o pipefail", "noglob": "set -f",
     "nullglob": "shopt -s nullglob", "extglob": "shopt -s extglob", "alias": "alias na=nb", "unalias": "unalias b", "trapusr": "trap 'echo t' USR1", "trapexit": "trap 'echo bye' EXIT", "trapdbg": "trap ': dbg' DEBUG",
     "cd": "cd /", "umask": "umask 077", "ulimit": "ulimit -f 2000000", "setargs": "set -- changed", "shift": "shift", "exec3": "exec 3>../f3", "exec2": "exec 2>/dev/null", "execin": "exec </dev/null",
-    "pushd": "pushd / >/dev/null", "hashr": "hash -p /bin/true mycmd", "exit": "exit 3", "expasg": ": ${newv:=set}", "exparith": ": $((x+=5))",
+    "pushd": "pushd / >/dev/null", "hashr": "hash -p /bin/true mycmd", "exit": "exit 3", "return": "return 5", "expasg": ": ${newv:=set}", "exparith": ": $((x+=5))",
 }
 # the ext* contexts run ONE external command in the subshell context; the mutations are the side effects of expanding its words
 # (mutators without an expansion form contribute nothing there: the model still says the parent is unchanged)
@@ -50,7 +50,8 @@ def wrap(ctx, body):
     return {
         "paren": "( %s )" % body, "cs": ': "$( %s )"' % body, "bq": ': "`%s`"' % body, "pipefirst": "{ %s; } | cat >/dev/null" % body, "pipelast": "true | { %s; }" % body,
         "bg": "{ %s; } & wait" % body, "procsub": "cat <( %s ) >/dev/null" % body, "coproc": "coproc { %s; }; wait" % body, "nested": "( ( %s ); : )" % body,
-        "funcsub": "h() ( %s ); h" % body,      # (h exists beforehand with another body: the definition itself changes `funcs`, see below)
+        "bgjob": "{ %s; } & wait %%1" % body, "coprocjob": "coproc { %s; }; wait %%1" % body,
+        "fnbgjob": "", "fnparen": "", "funcsub": "h() ( %s ); h" % body,      # (h exists beforehand with another body: the definition itself changes `funcs`, see below)
     }[ctx]
 
 
@@ -64,6 +65,11 @@ def script(case):
     pre, w = "", wrap(case["ctx"], body)
     if case["ctx"] == "funcsub":
         pre, w = "h() ( %s )\n" % body, "h"          # defining h is the parent's own doing: it happens before the first dump
+    # inside a function: the subshell's `return` / `exit` must not make the FUNCTION return (the marker file says the function went on)
+    if case["ctx"] == "fnbgjob":
+        pre, w = "h() { { %s; } & wait %%1; : > ../resumed; }\n" % body, "h"
+    if case["ctx"] == "fnparen":
+        pre, w = "h() { ( %s ); : > ../resumed; }\n" % body, "h"
     return "cd w || exit 9\n" + HEAD + pre + 'D warm "$@"\n: > ../dump\nD before "$@"\n' + w + ' 2>/dev/null\nD after "$@"\n'
 
 
@@ -93,6 +99,7 @@ def observe(shell, scr):
     r = run_script(shell, scr, front="file", stdin_data=b"", timeout=60, files={"w/.keep": ""}, keep=True)
     p = os.path.join(r["dir"], "dump")
     dump = open(p, "rb").read().decode("utf-8", "replace") if os.path.exists(p) else ""
+    r["resumed"] = os.path.exists(os.path.join(r["dir"], "resumed"))
     shutil.rmtree(r["dir"], ignore_errors=True)
     return dump, r
 
@@ -102,6 +109,9 @@ def run(tier):
     build_harness()
     ideal, states = model("MC_Subshell_ideal.cfg")
     built, _ = model("MC_Subshell_asbuilt.cfg")
+    neg = run_tlc("MC_Subshell", "MC_Subshell_exitprop.cfg", workers=4, timeout=600, xmx="4g")
+    if neg["ok"]:
+        raise ToolError("Subshell.tla self-test: ParentSurvives should be violated when the subshell's exit is handed to the parent")
     key = lambda c: json.dumps([c["ctx"], c["muts"]])
     bmap = {key(c): sorted(c["changed"]) for c in built}
     cases = sorted(ideal, key=key)
@@ -115,19 +125,23 @@ def run(tier):
         scr = script(c)
         db, rb = observe("bash", scr)
         dr, rr = observe("brush", scr)
-        return c, scr, db, dr, rr
+        return c, scr, db, dr, rr, rb
     evals = nontrivial = 0
-    for c, scr, db, dr, rr in pmap(one, cases):
+    for c, scr, db, dr, rr, rb in pmap(one, cases):
         evals += 1
         if crashed(rr) or rr["timeout"]:
             v.violation("crash:" + key(c), {"kind": "crash or hang", "script": scr, "stderr": rr["err"][-400:]})
             continue
         cb, secb = changed(db)
         cr, secr = changed(dr)
-        if cb != sorted(c["changed"]):
-            v.audit_miss({"case": c, "bash_changed": cb})
+        marker = c["ctx"] in ("fnbgjob", "fnparen")
+        if cb != sorted(c["changed"]) or (marker and rb["resumed"] != c["alive"]):
+            v.audit_miss({"case": c, "bash_changed": cb, "bash_resumed": rb["resumed"]})
             continue
         nontrivial += 1
+        if marker and rr["resumed"] != c["alive"]:
+            v.violation(key(c) + ":flow", {"kind": "the function that started the subshell did not go on after it (the subshell's exit / return reached the parent)", "script": scr, "ctx": c["ctx"], "muts": c["muts"], "stderr": rr["err"][-300:]})
+            continue
         if cr == sorted(c["changed"]):
             continue
         if cr is not None and cr == bmap[key(c)]:
